@@ -889,7 +889,7 @@ Section Repair.
     | Some op =>
         let w1 := op_world op in
         let s := op_state op in
-        let '(applied_rev, patchify_rev, _) :=
+        let '(applied_rev, patchify_rev, stop) :=
           repair_walk (S (length (w_objs w1))) (w_objs w1) s (op_base op) (w_branch w1) [] [] [] in
         let applied := rev applied_rev in
         let patchify := rev patchify_rev in
@@ -899,7 +899,9 @@ Section Repair.
         transact op (opts CDisallow true false false true false)
           (fun t =>
              tbind (repair_appliedness applied unapplied hidden t)
-               (fun t1 =>
+               (fun t0 =>
+                  (* trans.set_base(commit.id): the commit where the walk stopped *)
+                  let t1 := set_base t0 (Some stop) in
                   fold_left
                     (fun r c =>
                        tbind r (fun t =>
